@@ -67,7 +67,7 @@ vars == <<l, st>>
 Init0 == [game |-> B!NewBoard(Decode(StartFen).pos, 0, 1), lastcmd |-> "", lastline |-> <<>>,
           pending |-> FALSE, cur |-> 0, launched |-> 0, infinite |-> FALSE, stopped |-> FALSE,
           ended |-> {}, moves |-> [k \in {} |-> ""], winners |-> <<>>, asked |-> 0, readyok |-> 0,
-          exited |-> FALSE, mayexit |-> FALSE, fails |-> {}, bookgo |-> FALSE, nbest |-> 0, ngo |-> 0]
+          exited |-> FALSE, mayexit |-> FALSE, fails |-> {}, bookgo |-> FALSE, nbest |-> 0, ngo |-> 0, unsettled |-> FALSE]
 
 AddFail(s, name, cond) == IF cond THEN s ELSE [s EXCEPT !.fails = @ \cup {name}]
 
@@ -121,7 +121,13 @@ Step(s, ev, stub) ==
     [] nm = "harness.eof" -> [s EXCEPT !.mayexit = TRUE]
     [] nm = "harness.undelivered" -> AddFail(s, "c16.command-not-taken", s.exited)
     [] nm = "quiescent" ->
-         LET s1 == AddFail(s, "harness.not-quiescent", a[1])
+         \* a scenario the harness could not bring to rest in time (a loaded machine) is judged for what was
+         \* observed up to then, but not for what should have happened by the end; the driver counts them
+         \* a[2]: quit / end of input was sent; a[3]: the driver closed its output channel.  A driver that has
+         \* not shut down several seconds after quit / EOF is not "a slow machine"
+         IF a[2] /\ ~a[3] THEN AddFail(s, "c16.shutdown-incomplete", FALSE) ELSE
+         IF ~a[1] THEN [s EXCEPT !.unsettled = TRUE] ELSE
+         LET s1 == s
              s2 == AddFail(s1, "c16.isready-unanswered", s.exited \/ s.readyok = s.asked)
              \* a pending go must have been answered if its search ended by itself (and it is not an
              \* infinite search) or it was told to stop
@@ -147,6 +153,7 @@ Next ==
               f == { x \in s.fails : (Want("C04") /\ SubSeq(x, 1, 3) = "c04") \/ (Want("C16") /\ SubSeq(x, 1, 3) = "c16") \/ SubSeq(x, 1, 3) = "har" }
           IN /\ (f # {} => PrintT("FAIL|" \o ToString(l) \o "|" \o ToString(f)))
              /\ PrintT("NOTE|scenario|go=" \o ToString(s.ngo) \o "|best=" \o ToString(s.nbest))
+             /\ (s.unsettled => PrintT("NOTE|unsettled"))
              /\ st' = f
      ELSE st' = {}
   /\ l' = l + 1
